@@ -66,8 +66,8 @@ def impl_c17(case, scratch):
 
         store([i for i in range(n) if i not in phase2])
         analyze()
-        if phase2:
-            store(sorted(phase2))
+        if phase2 or case.get("rewrite"):
+            store(sorted(phase2) + sorted(case.get("rewrite") or []))
             analyze()
         return {"outcome": "ok", "marked": runs[-1]["marked"], "classified": runs[-1]["classified"], "runs": runs}
     finally:
